@@ -63,15 +63,94 @@ def _trace_inputs(trace):
         lhs = st.get("lhs", "")
         v = st.get("value", {})
         fn = (st.get("sourceLocation") or {}).get("function", "")
-        vals.append({"lhs": lhs, "value": v.get("data", v.get("name")), "binary": v.get("binary"),
+        vals.append({"lhs": lhs, "value": v.get("data", v.get("name")), "binary": v.get("binary"), "type": v.get("type"),
                      "function": fn, "line": (st.get("sourceLocation") or {}).get("line")})
     return vals
+
+
+SHIM = r"""
+/* native replay shim: nondet values come from the verifier's counterexample, in call order */
+#include <stdio.h>
+#include <stdlib.h>
+static const long long verif_vals[] = { %s 0 };
+static const int verif_nvals = %d;
+static int verif_pos = 0;
+static long long verif_next(void) { if (verif_pos < verif_nvals) return verif_vals[verif_pos++]; return 0; }
+char nondet_char(void) { return (char) verif_next(); }
+int nondet_int(void) { return (int) verif_next(); }
+unsigned nondet_unsigned(void) { return (unsigned) verif_next(); }
+long nondet_long(void) { return (long) verif_next(); }
+size_t nondet_size_t(void) { return (size_t) verif_next(); }
+_Bool nondet_bool(void) { return verif_next() != 0; }
+void %s(void);
+int main(void) { %s(); printf("REPLAY: harness ran to completion without a fault\\n"); return 0; }
+"""
+
+
+def native_replay(pid_dir, uid, oname, sources, harness, defines, includes, trace):
+    """compile the same unit natively (gcc, ASan+UBSan), feed the counterexample's nondet values, run.
+    returns dict for the replay file"""
+    import re as _re
+    vals = []
+    for st in trace or []:
+        lhs = st.get("lhs") or ""
+        if lhs.startswith("return_value_nondet_"):
+            b = st.get("binary")
+            if b and _re.fullmatch(r"[01]+", b):
+                n = int(b, 2)
+                if b[0] == "1" and len(b) in (8, 16, 32, 64) and "unsigned" not in (st.get("type") or "") and "size_t" not in lhs:
+                    n -= 1 << len(b)
+                vals.append(n)
+            else:
+                v = st.get("value")
+                try:
+                    vals.append(int(v))
+                except Exception:
+                    vals.append(ord(v[1]) if isinstance(v, str) and len(v) == 3 else 0)
+    safe = "".join(ch if ch.isalnum() or ch in "._-" else "_" for ch in (uid + "__" + oname))[:100]
+    d = os.path.join(pid_dir, safe + ".replay")
+    os.makedirs(d, exist_ok=True)
+    srcs = []
+    for sfile in sources:
+        dst = os.path.join(d, os.path.basename(sfile))
+        shutil.copy(sfile, dst)
+        srcs.append(dst)
+    shim = os.path.join(d, "replay_shim.c")
+    with open(shim, "w") as f:
+        f.write(SHIM % ("".join("%dLL, " % v for v in vals), len(vals), harness, harness))
+    exe = os.path.join(d, "replay")
+    cmd = ["gcc", "-g", "-O0", "-fsanitize=address,undefined", "-fno-sanitize-recover=undefined", "-w", "-DVERIF_NATIVE",
+           "-D__CPROVER_assume(c)=do{if(!(c)){puts(\"REPLAY: assumption not met\");exit(77);}}while(0)"]
+    cmd += ["-D" + x for x in defines] + ["-I" + x for x in includes] + srcs + [shim, "-o", exe]
+    p = subprocess.run(cmd, stdout=subprocess.PIPE, stderr=subprocess.PIPE)
+    if p.returncode != 0:
+        undef = sorted(set(_re.findall(r"undefined reference to `([A-Za-z_]\w*)'", p.stderr.decode())))
+        if undef:
+            # other harnesses in the same file call functions that are not part of this unit: stub them (never reached)
+            stubs = os.path.join(d, "stubs.c")
+            with open(stubs, "w") as f:
+                f.write("#include <stdlib.h>\n" + "".join("void %s(void) { abort(); }\n" % u for u in undef))
+            cmd = cmd[:-2] + [stubs] + cmd[-2:]
+            p = subprocess.run(cmd, stdout=subprocess.PIPE, stderr=subprocess.PIPE)
+    rec = {"replay_dir": d, "nondet_values": vals, "native_compile_cmd": " ".join(cmd)}
+    if p.returncode != 0:
+        rec.update(reproduced_on_real_code=False, native_output="native compile failed: " + p.stderr.decode()[-500:])
+        return rec
+    try:
+        q = subprocess.run([exe], stdout=subprocess.PIPE, stderr=subprocess.STDOUT, timeout=60)
+        out = q.stdout.decode(errors="replace")
+        rc = q.returncode
+    except subprocess.TimeoutExpired:
+        out, rc = "timeout", -1
+    fault = rc not in (0, 77, 126, 127, -1)
+    rec.update(reproduced_on_real_code=bool(fault), native_exit=rc, native_output=out[-1500:], replay_cmd=exe)
+    return rec
 
 
 def run_unit(uid, sources, harness, enforce=None, replace=(), loop_contracts=False, unwind=None,
              defines=(), includes=(), cbmc_flags=(), timeout=180, mem_gb=8, bounded=None,
              expect=(), file="", function="", twin=True, checks=STD_CHECKS, object_bits=8, sat_solver="cadical",
-             assumptions=(), extraction=None, sha_text=None, keep=False, no_std_checks_in=()):
+             assumptions=(), extraction=None, sha_text=None, keep=False, no_std_checks_in=(), native=False):
     """Returns a list [UnitResult] (the unit, with the twin folded in as an obligation)."""
     r = UnitResult(uid, file=file, function=function or (enforce or harness), engine="A:cbmc-dfcc",
                    proved_kind="bounded" if bounded else "proved")
@@ -155,6 +234,15 @@ def run_unit(uid, sources, harness, enforce=None, replace=(), loop_contracts=Fal
             o.detail = "%s  [%s:%s in %s]" % (desc, loc.get("file", "?"), loc.get("line", "?"), loc.get("function", "?"))
         else:
             r.add(name, UNDECIDED, "cbmc-sat", 0.0, "status=%s %s" % (st, desc))
+    if native:
+        pid = uid.split(".")[0]
+        for o in r.obligations:
+            if o.status == FAILED and o.model and len(r.replays) < 3:
+                try:
+                    r.replays[o.name] = native_replay(os.path.join(VERIF, "replays", pid), uid, o.name, sources, harness,
+                                                      ["IPHREEQC_VERIF"] + list(defines), includes, o.model)
+                except Exception as e:
+                    r.replays[o.name] = {"reproduced_on_real_code": False, "replay_error": "%s: %s" % (type(e).__name__, e)}
     if r.obligations:
         r.obligations[0].seconds = secs
     for cls in expect:
@@ -175,3 +263,47 @@ def run_unit(uid, sources, harness, enforce=None, replace=(), loop_contracts=Fal
             r.add("vacuity.must_fail_twin", UNDECIDED, "cbmc-sat", 0.0, "twin undecided: %s" % e, kind="vacuity")
     r.seconds = time.time() - t_all
     return [r]
+
+
+def define_lines(rel, names):
+    """#define lines for `names` cut from a repository header (so constants are the repository's, not copies)"""
+    import re
+    txt = open(os.path.join(REPO, rel)).read()
+    out = []
+    for n in names:
+        m = re.search(r"^[ \t]*#[ \t]*define[ \t]+%s[ \t]+[^\n]*$" % re.escape(n), txt, re.M)
+        if not m:
+            raise Undecided("#define %s not found in %s" % (n, rel))
+        out.append(m.group(0).split("/*")[0].rstrip())
+    return "\n".join(out)
+
+
+def extracted_unit(uid, cuts, harness_text, harness, prelude="", rules=(), loop_contracts=None, loop_count=None, loop_contracts_flag=False, **kw):
+    """cuts: list of (rel, qualname, find_kwargs).  Builds one C translation unit:
+    prelude + the cut function texts (rules applied, #line directives kept) + the harness, then runs run_unit."""
+    from . import extract as X
+    d = mkscratch("x_" + uid.replace("/", "_"))
+    try:
+        parts = ["/* generated on every run from /repo's working tree by vf/extract.py */", "#include <stddef.h>", "#include <stdbool.h>", prelude]
+        fired_all, shas = [], []
+        nloops_total = 0
+        for ci, (rel, q, fk) in enumerate(cuts):
+            text, path, line, fn = X.cut_function(rel, q, **(fk or {}))
+            shas.append(sha256_text(text))
+            t2, fired = X.apply_rules(text, rules)
+            if loop_contracts and q in loop_contracts:
+                t2, n = X.inject_loop_contracts(t2, loop_contracts[q], (loop_count or {}).get(q))
+            fired_all += ["%s: %s" % (q, f) for f in fired]
+            parts.append('#line %d "%s"' % (line, path))
+            parts.append(t2)
+        parts.append('#line 1 "harness"')
+        parts.append(harness_text)
+        src = os.path.join(d, "unit.c")
+        with open(src, "w") as f:
+            f.write("\n".join(parts))
+        extraction = {"cut": [{"file": c[0], "function": c[1]} for c in cuts], "rules_fired": fired_all,
+                      "drops": "class qualifier; members the unit touches become file-scope variables in the prelude; see DESIGN.md section 3.1"}
+        res = run_unit(uid, [src], harness, extraction=extraction, sha_text="".join(shas), file=cuts[0][0], loop_contracts=loop_contracts_flag, **kw)
+        return res
+    finally:
+        shutil.rmtree(d, ignore_errors=True)
